@@ -51,10 +51,13 @@ impl MergeCtx {
 
         match state {
             ExecutedState::Call(CallResult::Executed(ValueRef::Stream { generation, .. })) => Ok(*generation),
-            // such Aps are always preceded by Fold where corresponding stream could be used
-            // so it's been already checked that res_generation is well-formed
-            // and accessing 0th element is safe here
-            ExecutedState::Ap(ap_result) => Ok(ap_result.res_generations[0]),
+            // a fold lore from (untrusted) data could point to an Ap that hasn't been checked by Ap merger,
+            // so res_generations could be empty here
+            ExecutedState::Ap(ap_result) => ap_result
+                .res_generations
+                .first()
+                .copied()
+                .ok_or_else(|| KeeperError::NoStreamState { state: state.clone() }),
             state => Err(KeeperError::NoStreamState { state: state.clone() }),
         }
     }
